@@ -10,6 +10,7 @@ import (
 	"sort"
 	"strings"
 	"sync"
+	"time"
 
 	"verif/sim/internal/common"
 	"verif/sim/internal/world"
@@ -207,6 +208,26 @@ func (s *sim) step(idx int, st Step) string {
 			return ""
 		}
 		s.corrupt(p, st)
+	case "touch":
+		// modification times are history too: make sources or outputs look older / newer
+		p := s.pkg(st.Pkg)
+		if p == nil {
+			return ""
+		}
+		ents, _ := os.ReadDir(s.pkgDir(p.name))
+		for _, e := range ents {
+			isOut := strings.HasSuffix(e.Name(), "wire_gen.go")
+			var t time.Time
+			switch {
+			case st.Mode == "sources-old" && !isOut, st.Mode == "output-old" && isOut, st.Mode == "all-old":
+				t = time.Now().Add(-72 * time.Hour)
+			case st.Mode == "sources-new" && !isOut, st.Mode == "output-new" && isOut:
+				t = time.Now().Add(72 * time.Hour)
+			default:
+				continue
+			}
+			os.Chtimes(filepath.Join(s.pkgDir(p.name), e.Name()), t, t)
+		}
 	case "cmd":
 		return s.cmd(idx, st)
 	}
